@@ -603,6 +603,7 @@ fn vary_default_handshake(case: &Case, input: &mut [u8]) {
 }
 
 pub fn run_case(case: &Case) -> Obs {
+    beat();
     run_predecessors(case);
     if case.over_tls {
         if let Some(o) = run_case_tls(case) {
@@ -863,19 +864,75 @@ pub static START: std::sync::OnceLock<std::time::Instant> = std::sync::OnceLock:
 pub static THOROUGH: std::sync::atomic::AtomicBool = std::sync::atomic::AtomicBool::new(false);
 pub const MIRI_BUDGET_S: u64 = 420;
 
+// ---- bounded progress: a case that makes no progress at all -------------------------------------
+// Every transport operation and every shim callback of a case beats the heart of the worker that runs
+// it. A case whose worker has not beaten for STUCK_SECS of wall time is reported on stderr
+// (`VMON-STUCK ...`) and the process exits with code 98: the code under test is spinning without
+// touching the transport (the operation budgets cannot see that), or the machine is badly overloaded.
+// Which of the two is not decided here: the runner re-runs that one case alone, with a longer limit,
+// and only a case that is stuck again in isolation becomes a violation ("no progress").
+pub const MAX_WORKERS: usize = 64;
+pub static HEART: [std::sync::atomic::AtomicU64; MAX_WORKERS] = [const { std::sync::atomic::AtomicU64::new(0) }; MAX_WORKERS];
+/// index + 1 of the case a worker is running (0 = idle)
+pub static RUNNING: [std::sync::atomic::AtomicU64; MAX_WORKERS] = [const { std::sync::atomic::AtomicU64::new(0) }; MAX_WORKERS];
+thread_local! {
+    pub static WORKER_SLOT: std::cell::Cell<usize> = const { std::cell::Cell::new(usize::MAX) };
+}
+/// called by the transports and the shim
+pub fn beat() {
+    let k = WORKER_SLOT.with(|w| w.get());
+    if k < MAX_WORKERS {
+        HEART[k].fetch_add(1, std::sync::atomic::Ordering::Relaxed);
+    }
+}
+fn stuck_secs(ctx: &Ctx) -> u64 {
+    let base = std::env::var("VMON_STUCK_SECS").ok().and_then(|v| v.parse().ok()).unwrap_or(90u64);
+    // instrumented builds are slow, not stuck
+    match std::env::var("VMON_PROFILE").as_deref() {
+        Ok("valgrind") => base * 40,
+        Ok("asan") => base * 6,
+        _ if ctx.miri => u64::MAX / 4,
+        _ => base,
+    }
+}
+
 pub fn par_cases<F>(ctx: &Ctx, prop: &'static str, group: &str, n: u64, f: F) -> Report
 where
     F: Fn(&mut Rng, u64, &mut Report) + Sync,
 {
-    use std::sync::atomic::{AtomicU64, Ordering};
+    use std::sync::atomic::{AtomicBool, AtomicU64, Ordering};
     let next = AtomicU64::new(0);
-    let threads = ctx.threads.max(1).min(n.max(1) as usize);
+    let threads = ctx.threads.max(1).min(n.max(1) as usize).min(MAX_WORKERS);
     let mut reports: Vec<Report> = Vec::new();
     let tag = format!("{}/{}", prop, group);
+    let done = AtomicBool::new(false);
+    let limit = stuck_secs(ctx);
+    let slot_ctr = AtomicU64::new(0);
+    for k in 0..MAX_WORKERS {
+        RUNNING[k].store(0, Ordering::Relaxed);
+    }
     std::thread::scope(|s| {
+        // the watchdog of this group
+        s.spawn(|| {
+            let mut seen: Vec<(u64, u64, std::time::Instant)> = (0..MAX_WORKERS).map(|_| (0, 0, std::time::Instant::now())).collect();
+            while !done.load(Ordering::Relaxed) {
+                std::thread::sleep(std::time::Duration::from_millis(250));
+                for k in 0..threads {
+                    let (r, h) = (RUNNING[k].load(Ordering::Relaxed), HEART[k].load(Ordering::Relaxed));
+                    if r == 0 || (r, h) != (seen[k].0, seen[k].1) {
+                        seen[k] = (r, h, std::time::Instant::now());
+                    } else if seen[k].2.elapsed().as_secs() >= limit {
+                        eprintln!("VMON-STUCK prop={} group={} index={} secs={} (no transport operation and no callback in that time)", prop, group, r - 1, seen[k].2.elapsed().as_secs());
+                        std::process::exit(98);
+                    }
+                }
+            }
+        });
         let mut hs = Vec::new();
         for _ in 0..threads {
             hs.push(s.spawn(|| {
+                let slot = slot_ctr.fetch_add(1, Ordering::Relaxed) as usize;
+                WORKER_SLOT.with(|w| w.set(slot));
                 let mut rep = Report::default();
                 loop {
                     let i = next.fetch_add(1, Ordering::Relaxed);
@@ -894,7 +951,14 @@ where
                     CURRENT_CASE.with(|c| *c.borrow_mut() = (tag.clone(), i));
                     let mut rng = Rng::for_case(ctx.seed, &tag, i);
                     let before = rep.violations.len();
+                    if slot < MAX_WORKERS {
+                        HEART[slot].fetch_add(1, Ordering::Relaxed);
+                        RUNNING[slot].store(i + 1, Ordering::Relaxed);
+                    }
                     let r = catch_unwind(AssertUnwindSafe(|| f(&mut rng, i, &mut rep)));
+                    if slot < MAX_WORKERS {
+                        RUNNING[slot].store(0, Ordering::Relaxed);
+                    }
                     if let Err(_) = r {
                         let p = take_panic();
                         rep.inconclusive.push(format!("harness panic in {} case {}: {:?}", tag, i, p));
@@ -916,6 +980,7 @@ where
                         });
                     }
                 }
+                WORKER_SLOT.with(|w| w.set(usize::MAX));
                 rep
             }));
         }
@@ -929,6 +994,7 @@ where
                 }
             }
         }
+        done.store(true, Ordering::Relaxed);
     });
     let mut out = Report::default();
     for r in reports {
